@@ -179,6 +179,9 @@ Fixpoint rawF (fuel : nat) (s : tspec) (t : nat) : out * list tr :=
   | AltD n l => match alt_raw (rawF fuel) t l k0 with
                 | (Some v, k) => (Ret v, assemble n t None k)
                 | (None, k) => (Ret (3000 + n), assemble n t None k) end
+  | NotS n kid => match rawF fuel kid t with
+                  | (Ret _, rk) => (Exc (6000 + n), assemble n t (Some (6000 + n)) (k_ok k0 rk))
+                  | (Exc _, rk) => (Ret t, assemble n t None (k_fail k0 rk)) end
   end end.
 
 (* ---------- what an evaluation (or a group of evaluations acting as one child) guarantees ---------- *)
@@ -812,7 +815,7 @@ Proof.
     rewrite Hraw. cbn [fst snd].
     destruct (finalizeF st1 (sid_of s) t p f st2 k lc fc st r2 I2 Hp eq_refl W Hp1 Ho1) as [A B].
     split; [exact A|]. split; [reflexivity|exact B]. }
-  destruct s as [n ok|n|n l|n l|n l|n l|n cs|n ok kid|n l]; cbn [sid_of] in *.
+  destruct s as [n ok|n|n l|n l|n l|n l|n cs|n ok kid|n l|n kid]; cbn [sid_of] in *.
   - destruct ok.
     + apply (Tail st1 (Ret (2000 + n)) k0 None [] I0 E). reflexivity.
     + apply (Tail st1 (Exc n) k0 None [] I0 E). reflexivity.
@@ -882,6 +885,17 @@ Proof.
     destruct (alt_raw (rawF fuel) t l k0) as [[v|] k2] eqn:Eraw; destruct Hm as [-> ->].
     + apply (Tail st2 (Ret v) k2 lc' fc' I2 E). cbn [rawF]. rewrite Eraw. reflexivity.
     + apply (Tail st2 (Ret (3000 + n)) k2 lc' fc' I2 E). cbn [rawF]. rewrite Eraw. reflexivity.
+  - (* NotS *)
+    cbn [tdepth] in Hd.
+    destruct (glom_ fuel st1 f t kid) as [st2 rb] eqn:Eb.
+    assert (Hdk : tdepth kid < fuel) by lia.
+    destruct (invF_step_glom fuel IH _ _ _ _ _ _ _ _ _ _ _ _ I0 Hdk Eb) as [Hr I2].
+    rewrite Hl1 in I2.
+    destruct rb as [v|e].
+    + apply (Tail st2 (Exc (6000 + n)) _ _ _ I2 E).
+      cbn [rawF]. destruct (rawF fuel kid t) as [o rk]. cbn [fst snd] in *. subst o. reflexivity.
+    + apply (Tail st2 (Ret t) _ _ _ I2 E).
+      cbn [rawF]. destruct (rawF fuel kid t) as [o rk]. cbn [fst snd] in *. subst o. reflexivity.
 Qed.
 
 (* ---------- stage 2 for all shapes: push-down and trim applied to the raw descent give the structural reading ---------- *)
@@ -1110,7 +1124,7 @@ Qed.
 Theorem all_sound2F : forall fuel, sound2F fuel.
 Proof.
   induction fuel as [|fuel IH]; intros s t Hd Hw; [lia|].
-  destruct s as [n ok|n|n l|n l|n l|n l|n cs|n ok kid|n l].
+  destruct s as [n ok|n|n l|n l|n l|n l|n cs|n ok kid|n l|n kid].
   - (* Leaf *)
     cbn [rawF exp]. destruct ok; cbn [fst snd].
     + split; [reflexivity|discriminate].
@@ -1154,12 +1168,17 @@ Proof.
     destruct (wf_kids n l Hn Hf) as (Hn1 & Hni & _ & Hsm).
     pose proof (alt_soundF fuel IH t l k0 (flat_map sids l) Hk (incl_refl _) (kstate_k0 _)) as H.
     cbn [k0 k_ft k_lf] in H.
-    cbn [rawF exp]. destruct (alt_raw (rawF fuel) t l k0) as [[v|] k2].
+    cbn [rawF exp].
+    (* the literal is folded away: tactics that abstract over the goal re-normalise [5000 + n] at every occurrence *)
+    assert (Hraised : raised (5000 + n) (sids (Alt n l))) by (exists n; split; [left; reflexivity|right; left; reflexivity]).
+    assert (Hdiff : forall e', raised e' (flat_map sids l) -> 5000 + n <> e')
+      by (intros e' Hra; apply (raised_own_differs n (flat_map sids l) e' Hn1 Hni Hsm Hra)).
+    remember (5000 + n) as E eqn:HE in *. clear HE.
+    destruct (alt_raw (rawF fuel) t l k0) as [[v|] k2].
     + destruct H as (Hexp & Hks & Hlf).
       destruct (alt_exp (exp fuel) t l [] false) as [[o fl] lfl]. cbn [fst] in Hexp. subst o. cbn [fst snd].
       split; [reflexivity|discriminate].
     + destruct H as (Hexp & Hks). rewrite Hexp. destruct Hks as (K1 & K3).
-      assert (Hraised : raised (5000 + n) (sids (Alt n l))) by (exists n; split; [left; reflexivity|right; left; reflexivity]).
       unfold assemble. destruct (k_has k2) eqn:Hhas; cbn [negb].
       * destruct (k_lf k2) eqn:Hlf.
         -- destruct (K3 eq_refl) as (_ & ft' & e' & Hft & Hhd & Hra). rewrite Hft.
@@ -1167,17 +1186,17 @@ Proof.
            ++ cbn [app andb fst snd]. split; [reflexivity|].
               intros e0 He0. injection He0 as <-.
               split; [|split; [reflexivity|split; [reflexivity|exact Hraised]]].
-              apply (finish_diff (TR n t (Some (5000 + n)) []) (k_lr k2) (5000 + n) e' eq_refl Hhd).
-              apply (raised_own_differs n (flat_map sids l) e' Hn1 Hni Hsm Hra).
+              apply (finish_diff (TR n t (Some (E)) []) (k_lr k2) (E) e' eq_refl Hhd).
+              apply Hdiff. exact Hra.
            ++ assert (E2 : match (a :: r) ++ [finish (k_lr k2)] with [x] => [] | l0 => l0 end = (a :: r) ++ [finish (k_lr k2)])
                 by (destruct r; reflexivity).
               rewrite E2.
               assert (E3 : (match (a :: r) ++ [finish (k_lr k2)] with [] => true | _ => false end) = false) by reflexivity.
               rewrite E3. cbn [andb].
               assert (E4 : (match (a :: r) ++ [finish (k_lr k2)] with
-                            | [one] => (Exc (5000 + n), TR n t (Some (5000 + n)) [] :: one, 5000 + n)
-                            | failed => (Exc (5000 + n), [TR n t (Some (5000 + n)) failed], 5000 + n) end)
-                           = (Exc (5000 + n), [TR n t (Some (5000 + n)) ((a :: r) ++ [finish (k_lr k2)])], 5000 + n))
+                            | [one] => (Exc (E), TR n t (Some (E)) [] :: one, E)
+                            | failed => (Exc (E), [TR n t (Some (E)) failed], E) end)
+                           = (Exc (E), [TR n t (Some (E)) ((a :: r) ++ [finish (k_lr k2)])], E))
                 by (destruct r; reflexivity).
               cbn [fst snd]. split; [destruct r; reflexivity|].
               intros e0 He0. injection He0 as <-.
@@ -1236,7 +1255,11 @@ Proof.
     pose proof (switch_soundF fuel IH (5000 + n) t cs k0 (flat_map pair_sids cs) Hk (incl_refl _) (kstate_k0 _) ltac:(discriminate)) as H.
     cbn [k0 k_ft] in H.
     assert (Hraised : raised (5000 + n) (sids (Switch n cs))) by (exists n; split; [left; reflexivity|right; left; reflexivity]).
-    cbn [rawF exp]. destruct (switch_raw (rawF fuel) (5000 + n) t cs k0) as [[x|e] k2].
+    assert (Hdiff : forall e', raised e' (flat_map pair_sids cs) -> 5000 + n <> e')
+      by (intros e' Hra; apply (raised_own_differs n (flat_map pair_sids cs) e' Hn1 Hni Hsm Hra)).
+    cbn [rawF exp].
+    remember (5000 + n) as E eqn:HE in *. clear HE.      (* the literal is folded away, see the Alt case *)
+    destruct (switch_raw (rawF fuel) E t cs k0) as [[x|e] k2].
     + destruct H as (Hexp & Hks & Hlf).
       destruct (switch_exp (exp fuel) t cs []) as [[o fl] m]. cbn [fst] in Hexp. subst o. cbn [fst snd err_of].
       split; [reflexivity|discriminate].
@@ -1249,8 +1272,8 @@ Proof.
            ++ cbn [app andb fst snd]. split; [reflexivity|].
               intros e0 He0. injection He0 as <-.
               split; [|split; [reflexivity|split; [reflexivity|exact Hraised]]].
-              apply (finish_diff (TR n t (Some (5000 + n)) []) (k_lr k2) (5000 + n) e' eq_refl Hhd).
-              apply (raised_own_differs n (flat_map pair_sids cs) e' Hn1 Hni Hsm Hra).
+              apply (finish_diff (TR n t (Some E) []) (k_lr k2) E e' eq_refl Hhd).
+              apply Hdiff. exact Hra.
            ++ assert (E2 : match (a :: r) ++ [finish (k_lr k2)] with [x] => [] | l0 => l0 end = (a :: r) ++ [finish (k_lr k2)])
                 by (destruct r; reflexivity).
               rewrite E2.
@@ -1307,6 +1330,18 @@ Proof.
       destruct (alt_exp (exp fuel) t l [] false) as [[o fl] lfl]. cbn [fst] in Hexp. subst o. cbn [fst snd].
       split; [reflexivity|discriminate].
     + destruct H as (Hexp & Hks). rewrite Hexp. cbn [fst snd]. split; [reflexivity|discriminate].
+  - (* NotS *)
+    destruct Hw as [Hn Hf]. cbn [sids] in Hn, Hf.  cbn [tdepth] in Hd.
+    inversion Hn as [|? ? Hni Hnd]; subst. inversion Hf as [|? ? Hlt Hfl]; subst.
+    assert (Hdk : tdepth kid < fuel) by lia.
+    destruct (IH kid t Hdk (conj Hnd Hfl)) as (Ho & Hex).
+    cbn [rawF exp]. destruct (rawF fuel kid t) as [o rk]. destruct (exp fuel kid t) as [[o' tk] ek]. cbn [fst snd] in *. subst o'.
+    destruct o as [v|e]; cbn [fst snd].
+    + split; [reflexivity|]. intros e0 He0. injection He0 as <-.
+      unfold assemble, k_ok, k0. cbn [k_has k_ft k_lf k_lr negb andb].
+      split; [apply finish_one|].
+      split; [reflexivity|]. split; [reflexivity|]. exists n. split; [left; reflexivity|right; right; reflexivity].
+    + split; [reflexivity|discriminate].
 Qed.
 
 Lemma WF_root : WF root_store.
@@ -1339,7 +1374,7 @@ Qed.
 (* non-vacuity: chains inside branches inside chains, a Switch, a guard, a Coalesce that recovers through its default *)
 Definition full_example : tspec :=
   Chain 1 [Leaf 2 true;
-           Alt 3 [Chain 4 [AltD 21 [Leaf 22 false; SkipLeaf 23]; OrS 6 [Leaf 7 false; Chain 8 [Leaf 9 true; Leaf 10 false]]];
+           Alt 3 [Chain 4 [AltD 21 [Leaf 22 false; SkipLeaf 23]; NotS 24 (Leaf 25 false); OrS 6 [Leaf 7 false; Chain 8 [Leaf 9 true; Leaf 10 false]]];
                   Switch 11 [(Leaf 12 false, Leaf 13 true); (Guard 14 true (Leaf 15 true), Chain 16 [Leaf 17 true; Leaf 18 false])];
                   SkipLeaf 19];
            Leaf 20 true].
